@@ -22,6 +22,7 @@ import (
 	"github.com/99designs/gqlgen/graphql/handler"
 	"github.com/99designs/gqlgen/graphql/handler/transport"
 	"io"
+	"mime"
 	"net/http"
 	"net/http/httptest"
 	"net/url"
@@ -45,6 +46,7 @@ type Cmd struct {
 	TimeoutMs  int                `json:"timeout_ms"`
 	LeakWaitMs int                `json:"leak_wait_ms"`
 	Introspect bool               `json:"introspect"`
+	ParseTP    bool               `json:"parse_tp,omitempty"` // tp:* modes: parse the wire payloads into Resps
 }
 
 type ErrP struct {
@@ -577,15 +579,34 @@ func (p *Probe) execTransport(run *Run, c *Cmd, res *Result) {
 	resp, err := cl.Do(req)
 	n := 0
 	status := 0
+	var wire []byte
+	var ctype string
 	if err == nil {
 		status = resp.StatusCode
 		b, _ := io.ReadAll(resp.Body)
 		n = len(b)
+		wire = b
+		ctype = resp.Header.Get("Content-Type")
 		resp.Body.Close()
 	}
 	ccancel()
 	res.Notes = append(res.Notes, fmt.Sprintf("transport %s status=%d bytes=%d err=%v", c.Mode, status, n, err != nil))
-	res.Resps = append(res.Resps, Resp{Errs: []ErrP{}, HasNext: "-", Status: status, Data: Tagged{"t": "absent"}})
+	if c.ParseTP && err == nil && status == 200 {
+		payloads, perr := ParseTransportBody(c.Mode, ctype, wire)
+		for _, r := range payloads {
+			pr := projectResp(r, res)
+			pr.Status = status
+			res.Resps = append(res.Resps, pr)
+		}
+		if perr != nil {
+			res.Notes = append(res.Notes, "wire: "+perr.Error())
+			if res.BadJSON == "" {
+				res.BadJSON = "wire: " + perr.Error()
+			}
+		}
+	} else {
+		res.Resps = append(res.Resps, Resp{Errs: []ErrP{}, HasNext: "-", Status: status, Data: Tagged{"t": "absent"}})
+	}
 	// the handler must return: Close waits for outstanding requests
 	closed := make(chan struct{})
 	go func() { ts.CloseClientConnections(); ts.Close(); close(closed) }()
@@ -599,4 +620,96 @@ func (p *Probe) execTransport(run *Run, c *Cmd, res *Result) {
 		res.Hung = true
 		res.LeakStack = p.gqlgenStacks(4000)
 	}
+}
+
+// ParseTransportBody splits the bytes a streaming (or plain) HTTP transport wrote into
+// the GraphQL payloads they carry, in wire order: tp:post / tp:get one JSON document,
+// tp:sse the data of every `next` event, tp:mixed every part (an `incremental` wrapper
+// contributes its items). The error reports the first part that is not what the
+// transport's framing promises (the payloads parsed so far are still returned).
+func ParseTransportBody(mode, contentType string, wire []byte) ([]*graphql.Response, error) {
+	var out []*graphql.Response
+	one := func(b []byte) error {
+		var r graphql.Response
+		if err := json.Unmarshal(b, &r); err != nil {
+			return fmt.Errorf("payload is not a JSON response: %v: %q", err, trunc(string(b), 300))
+		}
+		out = append(out, &r)
+		return nil
+	}
+	switch mode {
+	case "tp:sse":
+		complete := false
+		for _, ev := range strings.Split(string(wire), "\n\n") {
+			switch {
+			case ev == "" || strings.HasPrefix(ev, ":"):
+			case strings.HasPrefix(ev, "event: next\ndata: "):
+				if complete {
+					return out, fmt.Errorf("next event after complete")
+				}
+				if err := one([]byte(strings.TrimPrefix(ev, "event: next\ndata: "))); err != nil {
+					return out, err
+				}
+			case ev == "event: complete":
+				complete = true
+			default:
+				return out, fmt.Errorf("malformed event %q", trunc(ev, 300))
+			}
+		}
+		if !complete {
+			return out, fmt.Errorf("stream ended without complete event")
+		}
+	case "tp:mixed":
+		_, params, err := mime.ParseMediaType(contentType)
+		if err != nil || params["boundary"] == "" {
+			return out, fmt.Errorf("multipart response without boundary parameter: Content-Type %q", contentType)
+		}
+		parts := strings.Split(string(wire), "\r\n--"+params["boundary"])
+		if len(parts) > 0 && strings.HasPrefix(parts[0], "--"+params["boundary"]) {
+			// the first delimiter has no preceding line break
+			parts = append([]string{"", strings.TrimPrefix(parts[0], "--"+params["boundary"])}, parts[1:]...)
+		}
+		if len(parts) < 2 || parts[0] != "" {
+			return out, fmt.Errorf("stream does not start with a boundary: %q", trunc(string(wire), 200))
+		}
+		if strings.TrimSpace(parts[len(parts)-1]) != "--" {
+			return out, fmt.Errorf("stream does not end with the closing boundary: %q", trunc(parts[len(parts)-1], 200))
+		}
+		for _, part := range parts[1 : len(parts)-1] {
+			const hdr = "\r\nContent-Type: application/json\r\n\r\n"
+			if !strings.HasPrefix(part, hdr) {
+				return out, fmt.Errorf("part without the JSON content type header: %q", trunc(part, 200))
+			}
+			body := strings.TrimPrefix(part, hdr)
+			var wrap struct {
+				Incremental []json.RawMessage `json:"incremental"`
+			}
+			if err := json.Unmarshal([]byte(body), &wrap); err != nil {
+				return out, fmt.Errorf("part is not JSON: %v: %q", err, trunc(body, 300))
+			}
+			if wrap.Incremental == nil {
+				if err := one([]byte(body)); err != nil {
+					return out, err
+				}
+				continue
+			}
+			for _, it := range wrap.Incremental {
+				if err := one(it); err != nil {
+					return out, err
+				}
+			}
+		}
+	default:
+		if err := one(wire); err != nil {
+			return out, err
+		}
+	}
+	return out, nil
+}
+
+func trunc(s string, n int) string {
+	if len(s) > n {
+		return s[:n] + "..."
+	}
+	return s
 }
